@@ -144,6 +144,8 @@ def t1(ctx):
             for f in list(fails) + list(fails2):
                 n = f[0] if isinstance(f, tuple) else f
                 ctx.fail(n, dict(key="obligation:%s" % n), detail="termination obligation failed; no hanging input found", kind="T1", no_input=True)
+    from contracts import C19rows
+    C19rows.t1(ctx)
     lean.check_lemma(ctx, "Termination.lean", ["injective_escapes_finite"],
                      hypotheses={"injective_escapes_finite": "step + frame obligations of the concatenate label loop (effects, T1); injectivity of the label format in the counter (assumed)"})
 
